@@ -207,7 +207,7 @@ def class_ints(rel, names, extra_env=None):
     for m in re.finditer(r"static\s+(?:inline\s+)?(?:constexpr|const)\s+(?:int|unsigned|long long|unsigned long long)\s+(\w+)\s*=\s*([^;]+);", txt):
         try:
             env[m.group(1)] = ceval(m.group(2), env)
-        except Missing:
+        except (Missing, SyntaxError):
             pass
     out = {}
     for n in names:
@@ -323,7 +323,35 @@ def gen_utm():
     digest.append("UTM: tile=%d utmNshift=%d zones[%d,%d] epsg01N=%d utmrow=%s" % (me["tile_"], me["utmNshift_"], zs["MINUTMZONE"], zs["MAXUTMZONE"], ep["epsg01N"], strs("utmrow_", 1)[0]))
 
 
-GENERATORS = [gen_math, gen_gridcodes, gen_utm]
+def gen_geoid():
+    txt = preprocess("src/Geoid.cpp")
+    body = "namespace GeoVerif.Gen.GeoidC\n"
+    info = []
+    for nm in ["c0_", "c0n_", "c0s_"]:
+        m = re.search(r"const\s+int\s+Geoid::" + nm + r"\s*=\s*(-?\d+)\s*;", txt)
+        if not m:
+            raise Missing("Geoid::" + nm)
+        body += f"def {nm.rstrip('_')} : Int := {m.group(1)}\n"
+        info.append(f"{nm}={m.group(1)}")
+    for nm in ["c3_", "c3n_", "c3s_"]:
+        arr = brace_array(txt, r"Geoid::" + nm + r"\s*\[[^\]]*\]\s*=\s*\{")
+        vals = [ceval(x, {}) for x in split_top(arr)]
+        if len(vals) != 120:
+            raise Missing(f"Geoid::{nm} has {len(vals)} entries, expected 120")
+        body += f"def {nm.rstrip('_')} : List Int := [{', '.join(lean_int(v) for v in vals)}]\n"
+    hdr = preprocess("include/GeographicLib/Geoid.hpp")
+    ci = class_ints("include/GeographicLib/Geoid.hpp", ["stencilsize_", "nterms_"])
+    body += f"def stencilsize : Nat := {ci['stencilsize_']}\ndef nterms : Nat := {ci['nterms_']}\n"
+    m = re.search(r"pixel_max_\s*=\s*(0x[0-9a-fA-F]+)u", hdr)
+    if not m:
+        raise Missing("Geoid::pixel_max_")
+    body += f"def pixelMax : Nat := {int(m.group(1), 16)}\n"
+    body += "end GeoVerif.Gen.GeoidC\n"
+    write("GeoidC", body)
+    digest.append("Geoid: " + " ".join(info) + f" pixel_max={int(m.group(1),16)}")
+
+
+GENERATORS = [gen_math, gen_gridcodes, gen_utm, gen_geoid]
 
 
 def main():
